@@ -8,6 +8,8 @@ package main
 //     against the set of advertised listeners actually open on reachable live nodes.
 
 import (
+	"sync/atomic"
+	"sync"
 	"context"
 	"encoding/json"
 	"fmt"
@@ -258,7 +260,7 @@ func run(c *Ctx) {
 	globalBase = runtime.NumGoroutine()
 	im := NewImpl("C18", c.Seed, c.Tier)
 	im.Rule = "white-box histories of 1-25 advertisements/withdrawals (2-5 nodes x 2 services, timestamps 1..12 so that equal/older/newer and withdrawal-then-older all occur) delivered to one real node; non-trivial = the history contains an advertisement older than a withdrawal already delivered; mesh scenarios: non-trivial = at least one listener closed and one late joiner; distinct by full history"
-	cf := &CaseFile{Dir: c.Out, Prop: "C18", Imports: []string{"Model.Ads"}, CaseType: "c18_case", CheckFn: checkFn(), PerShard: 80}
+	cf := &CaseFile{Dir: c.Out, Prop: "C18", Imports: []string{"Model.AdsConc"}, CaseType: "c18x_case", CheckFn: checkFn(), PerShard: 80}
 	nh := 800
 	if c.Thorough() {
 		nh = 8000
@@ -266,7 +268,7 @@ func run(c *Ctx) {
 	for h := 0; h < nh; h++ {
 		r := NewRng(c.Seed*7919 + uint64(h))
 		term, label, nt := runHistory(im, r, h, c.Seed)
-		cf.Add(term, label)
+		cf.Add("(XSeq "+term+")", label)
 		im.Count(label, nt)
 		if h < 2 {
 			im.Sample(label)
@@ -279,9 +281,10 @@ func run(c *Ctx) {
 	for h := 0; h < nl; h++ {
 		r := NewRng(c.Seed*15485863 + uint64(h))
 		term, label, nt := runLocalHistory(im, r, h, c.Seed)
-		cf.Add(term, label)
+		cf.Add("(XSeq "+term+")", label)
 		im.Count(label, nt)
 	}
+	concurrentAds(c, im, cf)
 	periodicVsClose(c, im)
 	meshScenarios(c, im)
 	Must(cf.Write())
@@ -397,9 +400,9 @@ func meshScenarios(c *Ctx, im *Impl) {
 // checkFn: VERIF_C18_PINNED=1 compares with the model of the pinned (pre-fix) tree instead.
 func checkFn() string {
 	if os.Getenv("VERIF_C18_PINNED") != "" {
-		return "c18_check_pinned"
+		return "c18x_check_pinned"
 	}
-	return "c18_check"
+	return "c18x_check"
 }
 
 // runLocalHistory: the node's OWN listeners opened and closed (ListenPacketAndAdvertise /
@@ -528,6 +531,170 @@ func runLocalHistory(im *Impl, r *Rng, h int, seed uint64) (string, string, bool
 // the withdrawal of a service (time tc), it never sends an advertisement of that service with a
 // time that is not older than tc — otherwise every other node lists the closed service again,
 // whatever the delivery order (C18 "a withdrawn service is never resurrected").
+// concurrentAds: every session delivers from its own goroutine, so several advertisements and
+// withdrawals of one service can be inside handleServiceAdvertisement at once.  Per round a batch of 2-5
+// messages about ONE service (distinct timestamps around what the node already lists; advertisements,
+// withdrawals, sometimes an exact copy arriving over a second connection) is delivered by as many
+// goroutines released together.  Oracle from the property text: afterwards the node lists the service with
+// the newest advertisement's time iff the newest message is an advertisement (older never replaces newer,
+// a withdrawn service is not resurrected), and no message is relayed twice to one connection.  Model: the
+// table and the multiset of relays must be what Model/Ads.v handle_ad yields for SOME order of the batch
+// (Model/AdsConc.v conc_ads_check).
+func concurrentAds(c *Ctx, im *Impl, cf *CaseFile) {
+	rounds := 1500
+	if c.Thorough() {
+		rounds = 12000
+	}
+	r := NewRng(c.Seed ^ 0xc18c18)
+	conns := []string{"k0", "k1", "k2", "k3", "k4", "tail"}
+	WaitGoroutinesAtMost(globalBase, 3*time.Second)
+	ctx, cancel := context.WithCancel(context.Background())
+	defer cancel()
+	n := netceptor.NewWithConsts(ctx, "self", 16384, time.Hour, time.Hour, time.Hour, 30, time.Hour)
+	chans := map[string]chan []byte{}
+	for _, cn := range conns {
+		ch, _ := n.VerifAddConn(cn, 1, 4096)
+		chans[cn] = ch
+	}
+	base := StableGoroutines(time.Second)
+	bad := 0
+	for round := 0; round < rounds; round++ {
+		nm := &ids{m: map[string]uint64{"": 0, "self": 1}}
+		for _, cn := range conns {
+			nm.id(cn)
+		}
+		node, svc := fmt.Sprintf("o%d", round), "s1" // a new owner per round: the node starts without an entry for it
+		var pre []adIn
+		if r.Chance(60) {
+			pre = append(pre, adIn{Node: node, Svc: svc, T: 10 + r.Intn(10), Cancel: r.Chance(30), Body: 1, Recv: "k4"})
+		}
+		for _, a := range pre {
+			_ = n.VerifHandleServiceAdvertisement(a.wire(), a.Recv)
+		}
+		settle(base)
+		for _, cn := range conns {
+			Drain(chans[cn])
+		}
+		nb := 2 + r.Intn(4)
+		var batch []adIn
+		usedT := map[int]bool{}
+		for i := 0; i < nb; i++ {
+			if i > 0 && r.Chance(15) { // the same message once more, over another connection
+				cp := batch[r.Intn(len(batch))]
+				cp.Recv = conns[i]
+				batch = append(batch, cp)
+				continue
+			}
+			t := 1 + r.Intn(40)
+			for usedT[t] {
+				t = 1 + r.Intn(40)
+			}
+			usedT[t] = true
+			batch = append(batch, adIn{Node: node, Svc: svc, T: t, Cancel: r.Chance(35), Body: 2 + i, Recv: conns[i]})
+		}
+		var done sync.WaitGroup
+		var ready, release int32
+		for _, a := range batch {
+			done.Add(1)
+			go func(a adIn) {
+				defer done.Done()
+				w := a.wire()
+				atomic.AddInt32(&ready, 1)
+				for atomic.LoadInt32(&release) == 0 {
+					runtime.Gosched()
+				}
+				_ = n.VerifHandleServiceAdvertisement(w, a.Recv)
+			}(a)
+		}
+		for atomic.LoadInt32(&ready) < int32(len(batch)) {
+			runtime.Gosched()
+		}
+		atomic.StoreInt32(&release, 1)
+		done.Wait()
+		settle(base)
+		// observation
+		ads := map[string]map[string][2]int{}
+		for nn, m := range n.VerifServiceAds() {
+			if nn != node {
+				continue
+			}
+			for s, ad := range m {
+				if ads[nn] == nil {
+					ads[nn] = map[string][2]int{}
+				}
+				b := 0
+				fmt.Sscan(ad.Tags["b"], &b)
+				ads[nn][s] = [2]int{tOf(ad.Time), b}
+			}
+		}
+		var rels []string
+		perConn := map[string]int{}
+		for _, cn := range conns {
+			for _, m := range Drain(chans[cn]) {
+				if len(m) == 0 || m[0] != netceptor.MsgTypeServiceAdvertisement {
+					continue
+				}
+				var am adMsg
+				if json.Unmarshal(m[1:], &am) != nil {
+					continue
+				}
+				rels = append(rels, fmt.Sprintf("(%d, %d, %d, %d, %s)", nm.id(cn), nm.id(am.NodeID), nm.id("svc:"+am.Service), tOf(am.Time), CoqBool(am.Cancel)))
+				perConn[fmt.Sprintf("%s/%d/%v", cn, tOf(am.Time), am.Cancel)]++
+			}
+		}
+		// ---- model-independent oracle ----
+		newest := adIn{T: -1}
+		for _, a := range append(append([]adIn{}, pre...), batch...) {
+			if a.T > newest.T {
+				newest = a
+			}
+		}
+		got, listed := ads[node][svc]
+		rec := map[string]interface{}{"round": round, "pre": pre, "batch": batch, "listed": ads}
+		if bad < 6 {
+			switch {
+			case newest.Cancel && listed:
+				bad++
+				im.Violate(fmt.Sprintf("the newest message about %s/%s is a withdrawal (time %d) yet the service is listed with time %d after a concurrent batch", node, svc, newest.T, got[0]),
+					"concurrent-withdrawn-resurrected", rec)
+			case !newest.Cancel && (!listed || got[0] != newest.T):
+				bad++
+				im.Violate(fmt.Sprintf("the newest advertisement of %s/%s has time %d but after a concurrent batch the node lists %v (listed=%v)", node, svc, newest.T, got, listed),
+					"concurrent-older-replaced-newer", rec)
+			}
+			for k, cnt := range perConn {
+				if cnt > 1 {
+					bad++
+					im.Violate(fmt.Sprintf("a message of a concurrent batch was relayed %d times to one connection (%s)", cnt, k), "concurrent-ad-relayed-twice", rec)
+					break
+				}
+			}
+		}
+		// ---- Coq case ----
+		// the table restricted to this round's owner (owners of earlier rounds stay listed in the real node)
+		term := func(a adIn) string {
+			return fmt.Sprintf("({| a_node := %d; a_svc := %d; a_time := %d; a_cancel := %s; a_body := %d |}, %d)",
+				nm.id(a.Node), nm.id("svc:"+a.Svc), a.T, CoqBool(a.Cancel), a.Body, nm.id(a.Recv))
+		}
+		var ps, bs []string
+		for _, a := range pre {
+			ps = append(ps, term(a))
+		}
+		for _, a := range batch {
+			bs = append(bs, term(a))
+		}
+		cl := make([]string, len(conns))
+		for i, cn := range conns {
+			cl[i] = CoqN(nm.id(cn))
+		}
+		label := fmt.Sprintf("concurrent ads round %d batch=%d", round, len(batch))
+		cf.Add(fmt.Sprintf("(XConc {| ca_conns := %s; ca_pre := %s; ca_batch := %s; ca_ads := %s; ca_relays := %s |})",
+			CoqList(cl), CoqList(ps), CoqList(bs), coqAds(nm, ads), CoqList(rels)), label)
+		im.Count(label, true)
+		im.Hist(fmt.Sprintf("concurrent-ads:batch-%d", len(batch)))
+	}
+}
+
 func periodicVsClose(c *Ctx, im *Impl) {
 	logger.RegisterLogger(func(level int, format string, v ...interface{}) {
 		if strings.HasPrefix(format, "Sending service advertisement") {
